@@ -67,7 +67,7 @@ def _load(name):
     return m
 
 
-SUBS = [_load(n) for n in ("c11_adjres",) if (VERIF / "tools" / "props" / (n + ".py")).exists()]
+SUBS = [_load(n) for n in ("c11_adjres", "c11_dataparser") if (VERIF / "tools" / "props" / (n + ".py")).exists()]
 for _m in SUBS:
     PROPS_FILES = PROPS_FILES + _m.PROPS_FILES
     LEAN_TARGETS = LEAN_TARGETS + _m.LEAN_TARGETS
@@ -710,11 +710,53 @@ def reader_verdict(out, crash):
     return None
 
 
-def run_readers(ctx, corr):
-    rng = ctx.rng
+def readers_exe(ctx):
     d = ctx.build_gama(sanitize=True)
     objs = sorted(_glob.glob(str(d / "CMakeFiles" / "libgama.dir" / "**" / "*.o"), recursive=True))
-    exe = ctx.build_cpp("c11_results", [ctx.verif / "harness" / "c11_results.cpp"], includes=[ctx.verif / "harness"], libs=objs + ["-lexpat"])
+    return d, ctx.build_cpp("c11_results", [ctx.verif / "harness" / "c11_results.cpp"], includes=[ctx.verif / "harness"], libs=objs + ["-lexpat"])
+
+
+def reader_run_one(exe, op, b):
+    """one document through the reader harness -> oracle verdict (None = fine)"""
+    outs, crashes = run_cases(exe, [[f"{op} {hexs(b)}"]], timeout=60)
+    return reader_verdict(outs[0], crashes.get(0)), (crashes[0][1] if 0 in crashes else "\n".join(outs[0][-2:]))
+
+
+def verdict_class(v):
+    """what must stay the same while a failing document is shrunk: kind of failure and the frame it is attributed to"""
+    if v is None:
+        return None
+    m = re.match(r"(does not terminate|sanitizer report / abnormal exit rc=\d+: \S+|exception \S+|refused without a line number|no outcome)", v[0])
+    return (m.group(1) if m else v[0][:40], v[1])
+
+
+def shrink_reader_doc(exe, op, b, budget=260):
+    """ddmin over lines, then over bytes: a smaller document with the same verdict class (or `b` itself)"""
+    want = verdict_class(reader_run_one(exe, op, b)[0])
+    if want is None:
+        return b
+    left = [budget]
+
+    def fails(cand):
+        if left[0] <= 0:
+            return False
+        left[0] -= 1
+        return verdict_class(reader_run_one(exe, op, cand)[0]) == want
+    lines = b.split(b"\n")
+    if len(lines) > 1:
+        lines = ddmin(lines, lambda ls: fails(b"\n".join(ls)), max_tests=budget // 2)
+    bb = b"\n".join(lines)
+    if len(bb) <= 6000 and left[0] > 0:
+        # tokens `<...>` / text keep the document well formed more often than single bytes
+        toks = re.findall(rb"<[^>]*>|[^<]+", bb)
+        toks = ddmin(toks, lambda ts: fails(b"".join(ts)), max_tests=left[0])
+        bb = b"".join(toks)
+    return bb if verdict_class(reader_run_one(exe, op, bb)[0]) == want else b
+
+
+def run_readers(ctx, corr):
+    rng = ctx.rng
+    d, exe = readers_exe(ctx)
     t0 = time.time()
     bases = result_bases(ctx, ctx.size(4, 30), ctx.size(4, 20))
     items = []      # (op, label, bytes, expect_ok)
@@ -724,6 +766,8 @@ def run_readers(ctx, corr):
             items.append(("xml", "corpus " + f.name, f.read_bytes(), False))
         for f in sorted(corpus.glob("g3-*.xml")):
             items.append(("g3", "corpus " + f.name, f.read_bytes(), False))
+        for f in sorted(corpus.glob("html-*.html")):
+            items.append(("html", "corpus " + f.name, f.read_bytes(), False))
     for name, x, h in bases:
         items.append(("xml", f"result of {name}", x, True))
         if h:
@@ -764,9 +808,19 @@ def run_readers(ctx, corr):
             corr.count(f"reader_{op}_" + O[0].split()[1])
         v = reader_verdict(outs[i], crashes.get(i))
         payload = {"stream": "readers", "op": op, "label": label, "doc": b.decode("utf-8", "replace") if len(b) < 30000 else None,
-                   "doc_hex": b.hex() if len(b) < 30000 else None}
+                   "doc_hex": b.hex(), "bytes": len(b)}
         if v:
             det = crashes[i][1] if i in crashes else "\n".join(outs[i][-2:])
+            n_shrunk = corr.stats.get("reader_failures_shrunk", 0)
+            if n_shrunk < ctx.size(4, 12):          # delta-debug the first few failing documents of a run
+                corr.count("reader_failures_shrunk")
+                sb = shrink_reader_doc(exe, op, b)
+                if len(sb) < len(b):
+                    v2, det2 = reader_run_one(exe, op, sb)
+                    if v2:
+                        payload.update({"doc": sb.decode("utf-8", "replace"), "doc_hex": sb.hex(), "bytes": len(sb),
+                                        "shrunk_from_bytes": len(b), "original_sha": sha(b)})
+                        v, det = v2, det2
             corr.fail(f"{op} reader: {v[0]} [{label}]", payload, v[1], (det[:2200] + "\n[...]\n" + det[-600:]) if len(det) > 2900 else det)
         elif expect_ok and not (O and O[0].startswith("O ok")):
             corr.fail(f"{op} reader refuses gama's own output [{label}]: {O[:1]}", payload, "reader", "\n".join(outs[i][-2:]))
@@ -1075,6 +1129,11 @@ def classify(ctx, failure):
         if re.search(r"<(coordinates|vectors)[^>]*/>|<(coordinates|vectors)[^>]*>(?:(?!cov-mat).)*</\2>", doc, re.S):
             return "C11-silent-end"
     det = failure.detail or ""
+    # round 3: defects of the result / g3 readers with proposed patches (ids become effective once listed as known)
+    if w.startswith("html reader: sanitizer report") and "GNU_gama::HtmlParser::" in det:
+        return "C11-htmlparser-memory"
+    if "reader: exception bad_alloc leaves the reader" in w and w.startswith("g3 ") and re.search(r"<(sparse-mat|block-diagonal)\b", doc):
+        return "C11-dataparser-pure-data-failbit"
     if "rc=87" in w and re.search(r"svd\.h:\d+:\d+: runtime error: applying non-zero offset \d+ to null pointer", det) and "reset_UWV" in det:
         return "C11-svd-empty-ub"
     if "heap-buffer-overflow" in w and "LocalNetwork::Unknown::operator=" in det and "LocalNetwork::project_equations" in det:
@@ -1097,6 +1156,22 @@ def replay(ctx, payload):
     inp = f.get("input") or {}
     print(json.dumps({k: v for k, v in f.items() if k != "input"}, indent=1)[:3000])
     doc = inp.get("doc")
+    if inp.get("stream") == "readers" and inp.get("doc_hex") is not None:
+        _, exe = readers_exe(ctx)
+        b = bytes.fromhex(inp["doc_hex"])
+        v, det = reader_run_one(exe, inp.get("op", "xml"), b)
+        print(f"{inp.get('op')} reader on {len(b)} bytes ({inp.get('label')})")
+        print(det[-1800:])
+        print("oracle:", v)
+        return 1 if v else 0
+    if inp.get("stream") == "adjres-events" and inp.get("doc_hex") is not None:
+        _, exe = readers_exe(ctx)
+        b = bytes.fromhex(inp["doc_hex"])
+        v, det = reader_run_one(exe, "xml", b)
+        print(f"LocalNetworkAdjustmentResults::read_xml on {len(b)} bytes ({inp.get('label')})")
+        print(det[-1800:])
+        print("oracle:", v)
+        return 1 if v else 0
     if doc is None:
         print(json.dumps(payload.get("no_longer_checks"), indent=1)[:4000])
         return 0
